@@ -17,8 +17,9 @@ EXPLANATION = (
     "identifier/topic/payload; stored bytes are written only in first-send, own-timer and resume contexts; the timer delay "
     "depends on the request's interval object, created with the configured initial timeout; R-GAP - a lower-bound (sign) "
     "analysis of the interval classes shows the produced delay >= the initial timeout (initial >= 1 by setTimeout's guard, "
-    "factor default >= 1, maxDelay = max(initial, .), jitter >= 0, bandwidth/factor > 0 by setBandwith's guard). NOT decided: "
-    "that PUBLISH gaps do not shrink from one retry to the next (random jitter and a caller-supplied factor below 1 are "
+    "factor default >= 1, maxDelay = max(initial, .), jitter >= 0, bandwidth/factor > 0 by setBandwith's guard). The state an interval "
+    "object carries between calls is only multiplied, added to or capped from above (a necessary condition of non-shrinking gaps). NOT "
+    "decided: that PUBLISH gaps do not shrink from one retry to the next (random jitter and a caller-supplied factor below 1 are "
     "numeric, not structural). "
     " R-VERSION - the protocol version that gates DUP on SUBSCRIBE/UNSUBSCRIBE/PUBREL repeats is recorded by the accepted connect() only, before anything can be repeated on the connection.")
 ASSUMPTIONS = ["timing clauses of the property are not decided by this family"]
@@ -239,6 +240,14 @@ def check(ctx):
                         i = tr.events.index(e)
                         dep = any(x.kind == "CALL" and x.a["func"].endswith(".__call__") and "nterval" in x.a["func"]
                                   and x.stack[:len(e.stack)] == e.stack for x in tr.events[:i])
+                        if not dep and len(e.stack) > 1:
+                            # the delay was computed by the caller and handed to a small arming helper: the interval object of the very
+                            # request that is armed was called in the caller's frame
+                            dep = any(x.kind == "CALL" and x.a["func"].endswith(".__call__") and "nterval" in x.a["func"]
+                                      and x.stack[:len(e.stack) - 1] == e.stack[:-1] and isinstance(x.a.get("recv"), tuple)
+                                      and (x.a["recv"][:2] == ("attr", req) or (tr.path.st is not None and any(
+                                          o == req and is_interval_field(fl) and v == x.a["recv"] for (o, fl), v in tr.path.st.heap.items())))
+                                      for x in tr.events[:i])
                     ctx.ob("R-DELAY", "%s retry delay comes from the request's interval object (%s)" % (cq, short(e.func)), dep,
                            where=where(e), function=e.func, construct="%s/delay" % e.func, nontrivial=False,
                            msg="retry timer armed with delay %s" % show(e.a["delay"]))
@@ -283,6 +292,16 @@ def check(ctx):
                construct="%s/lower-bound" % c.qual,
                msg="the delay returned by %s.__call__ cannot be shown to be >= the configured initial timeout (sign analysis gives '%s'; "
                    "attributes %s): a retransmission can follow the previous transmission sooner than the initial timeout" % (cname, lb, ib.attr))
+        from .gaps import shrinking_updates
+        # "for a PUBLISH the gaps do not shrink": only the interval class that publish() gives its requests
+        for_publish = any(e.a["cls"] == c.qual for cls_ in a.protos[1:] for ent, p_, e in catalogue(a, cls_).all_events("NEW")
+                          if ent.kind == "API" and ent.name == "publish")
+        sh = shrinking_updates(c) if for_publish else []
+        ctx.ob("R-GAP", "%s: the state carried from one call to the next only grows (multiplied, added to, capped from above)" % cname, not sh,
+               where="%s:%d" % (c.module.path, sh[0][0].lineno if sh else c.node.lineno), function=c.qual + ".__call__",
+               construct="%s/shrinking-update" % c.qual,
+               msg="%s.__call__ updates its state by %s: a later delay is smaller than an earlier one - the gaps between retransmissions shrink "
+                   "from one retry to the next (already with the default factor 2)" % (cname, sh[0][1] if sh else ""))
         ctx.ob("R-GAP", "%s is constructed with the configured initial timeout only through keyword `initial`" % cname,
                "<positional>" not in passed and passed.get("initial") == "I", where=c.module.path, construct="%s/constructed" % c.qual, nontrivial=False,
                msg="constructor arguments passed by the client: %s" % passed)
